@@ -395,7 +395,10 @@ class RaggedArray(IndexableArray, np.lib.mixins.NDArrayOperatorsMixin):
                     new_dtype = np.int64
                 else:
                     new_dtype = np.uint64
-                weights = weights.astype(new_dtype)
+                # bincount accumulates its weights in float64, which is not exact for large integers
+                result = np.zeros(np.max(self.lengths), dtype=new_dtype)
+                np.add.at(result, column_indexes, weights.astype(new_dtype))
+                return result
 
             return np.bincount(column_indexes, weights=weights, minlength=np.max(self.lengths))
             result = np.zeros(np.max(self._shape.lengths), dtype=new_dtype)
